@@ -417,7 +417,9 @@ def run_c03(run: core.Run, n: int) -> None:
                "platform_release != '5.4.0-aws'", "'microsoft' in platform_release", "platform_release >= '5'",
                "python_version >= '2.7'", "python_version == '3.6'", "'2.' not in python_version", "platform_release == '5.4.0'",
                "python_full_version in '3.6.1 3.7.2'", "python_full_version >= '3.6.1'", "python_version === '3.6'",
-               "python_full_version === '3.6'", "'3.7.2' === python_full_version", "python_version != '3.6'"]
+               "python_full_version === '3.6'", "'3.7.2' === python_full_version", "python_version != '3.6'",
+               # an operand starting with `=` turns `==` into the arbitrary equality `===` (fixed defect D39)
+               "python_full_version == '=3.6.1'", "python_version == '=3.6'", "'=3.6' == python_version"]
         oenvs = [dict(base, python_version=pv, python_full_version=pf, platform_release=rel)
                  for pv, pf in (("2.7", "2.7.18"), ("3.6", "3.6.1"), ("3.7", "3.7.2"), ("3.10", "3.10.0"))
                  for rel in ("5.4.0", "5.4.0-generic", "5.10.16.3-microsoft-standard")]
@@ -470,6 +472,11 @@ def run_c03(run: core.Run, n: int) -> None:
                 # (fixed defect D37: only builtin sets were normalised element-wise, a frozenset raised TypeError)
                 fenv = {k: (frozenset(v) if isinstance(v, set) else v) for k, v in denv.items()}
                 gotf = ev(m, fenv) if "extras" not in text and "dependency_groups" not in text else evaluate_lock(m, fenv)
+                # ... and as dict key views (any collections.abc.Set: packaging types them AbstractSet[str]; fix f29d265)
+                kenv = {k: (dict.fromkeys(v).keys() if isinstance(v, set) and k != "extra" else v) for k, v in denv.items()}
+                gotk = ev(m, kenv) if "extras" not in text and "dependency_groups" not in text else evaluate_lock(m, kenv)
+                if gotk != got:
+                    gotf = gotk
                 if gotf != got:
                     run.fail(core.Failure("evalf|" + text + "|" + enc_env(denv), f"parse_marker({text!r}).evaluate = {gotf} with "
                                           f"frozenset-valued variables, {got} with sets",
@@ -992,9 +999,11 @@ def replay(data: dict) -> bool:
     if r["op"] == "evalf":
         env = {k: (set(v) if isinstance(v, list) else v) for k, v in r["env"].items()}
         fenv = {k: (frozenset(v) if isinstance(v, set) else v) for k, v in env.items()}
+        kenv = {k: (dict.fromkeys(v).keys() if isinstance(v, set) and k != "extra" else v) for k, v in env.items()}
         m = mk.parse_marker(r["text"])
         lock = "extras" in r["text"] or "dependency_groups" in r["text"]
-        return (evaluate_lock(m, fenv) if lock else ev(m, fenv)) != (evaluate_lock(m, env) if lock else ev(m, env))
+        want = evaluate_lock(m, env) if lock else ev(m, env)
+        return any((evaluate_lock(m, e2) if lock else ev(m, e2)) != want for e2 in (fenv, kenv))
     if r["op"] == "eval":
         env = {k: (set(v) if isinstance(v, list) else v) for k, v in r["env"].items()}
         try:
